@@ -228,6 +228,27 @@ func run(c Case) *hx.Outcome {
 		}
 	}
 	var smtpAddr, pop3Addr string
+	if !isReady && !c.Early && c.Fail != "" && !o.Failed() {
+		// one service failed; the others bind within moments. Their addresses are needed to see
+		// that they stop accepting too (this package runs without the race detector; a listener
+		// not bound yet simply is not probed)
+		for i := 0; i < 100 && (smtpAddr == "" || pop3Addr == ""); i++ {
+			if c.Fail != "smtp" { // (the accessor must not be asked about a listener that failed to bind)
+				if a := svc.SMTPServer.VerifAddr(); a != nil {
+					smtpAddr = a.String()
+				}
+			}
+			if c.Fail != "pop3" {
+				if a := svc.POP3Server.VerifAddr(); a != nil {
+					pop3Addr = a.String()
+				}
+			}
+			if (c.Fail == "smtp" || smtpAddr != "") && (c.Fail == "pop3" || pop3Addr != "") {
+				break
+			}
+			time.Sleep(5 * time.Millisecond)
+		}
+	}
 	var sc, pc *cl
 	lastTalk := time.Now() // no later than the sessions' first exchange: gaps are over-estimated, never under-estimated
 	if isReady {
@@ -402,7 +423,7 @@ func run(c Case) *hx.Outcome {
 		waitWebDown()
 		return o
 	}
-	if isReady && !o.Failed() {
+	if (isReady || smtpAddr != "" || pop3Addr != "") && !o.Failed() {
 		if c.SMTP == "data" {
 			if !count(stored, "inflight", 1) {
 				fail("inflight-lost", "the message acknowledged with 250 during shutdown produced no (or more than one) stored event for its mailbox")
@@ -416,6 +437,9 @@ func run(c Case) *hx.Outcome {
 		// Start closes each listener in its own goroutine when the context ends; nothing in the
 		// shutdown sequence waits for that, so "stops accepting" is given 2 s to become true.
 		for name, addr := range map[string]string{"SMTP": smtpAddr, "POP3": pop3Addr} {
+			if addr == "" {
+				continue
+			}
 			greeted := ""
 			for deadline := time.Now().Add(2 * time.Second); time.Now().Before(deadline); time.Sleep(20 * time.Millisecond) {
 				greeted = ""
